@@ -46,6 +46,8 @@ type c17Case struct {
 	// SamePrefix: a second StaticFiles mount on the SAME prefix serves another root (<sandbox>/rootb) with another
 	// extension list (txt|md), registered before (1) or after (2) the mount under test (css|js)
 	SamePrefix int `json:"second_mount_on_the_same_prefix,omitempty"`
+	// DottedRoot: the served directory is <sandbox>/dotted/root.v2 (a dot in the root's own name); its parent holds marked files
+	DottedRoot bool `json:"root_directory_name_contains_a_dot,omitempty"`
 }
 
 var (
@@ -116,6 +118,14 @@ func c17Setup() {
 		for _, f := range []string{"rootb/a.txt", "rootb/s.css", "rootb/sub/d.md", "rootb/sub/c.js", "rootb/n.txt"} {
 			w(f, "INSIDE-B:"+f)
 		}
+		for _, f := range []string{"dotted/root.v2/a.txt", "dotted/root.v2/s.css", "dotted/root.v2/sub/b.css", "dotted/root.v2/sub/c.js"} {
+			c := "INSIDE:" + f
+			w(f, c)
+			c17Inside[c] = true
+		}
+		for _, f := range []string{"dotted/SECRET.txt", "dotted/s.css", "dotted/b.css", "dotted/a.txt", "dotted/index.html"} {
+			w(f, c17Marker+":"+f)
+		}
 		w("SECRET.txt", c17Marker+":secret")
 		w("rootx/s.css", c17Marker+":sibling")
 		w("rootx/index.html", c17Marker+":sibling-index")
@@ -153,6 +163,10 @@ func c17Gen(tier string, emit func(c17Case)) {
 					if (h == "StaticFiles" || h == "StaticDir") && !enc && f%4 == 1 {
 						// with the route cache on and a second static mount whose root is the sibling directory
 						emit(c17Case{Handler: h, Prefix: p, Encoded: enc, First: f, Depth: 2, Cache: 1 + f%2})
+					}
+					if !enc && p == "/d" {
+						// a root directory whose own name contains a dot
+						emit(c17Case{Handler: h, Prefix: p, First: f, Depth: 2, DottedRoot: true})
 					}
 					if h == "StaticFiles" && !enc && p == "/d" {
 						// a second mount on the same prefix with another root and another extension list
@@ -329,6 +343,9 @@ func c17Run(c c17Case, st *fw.Stats) []fw.Viol {
 		return vs
 	}
 	root := filepath.Join(c17Base, "root")
+	if c.DottedRoot {
+		root = filepath.Join(c17Base, "dotted", "root.v2")
+	}
 	if c.Global {
 		rux.SetGlobalVar("file", ".+")
 		defer delete(rux.GetGlobalVars(), "file")
@@ -383,6 +400,9 @@ func c17Run(c c17Case, st *fw.Stats) []fw.Viol {
 		mountAll()
 	}
 	desc := fmt.Sprintf("%s(prefix %q, root <sandbox>/root, useEncodedPath=%v, global var file=%v, cache=%d)", c.Handler, c.Prefix, c.Encoded, c.Global, c.Cache)
+	if c.DottedRoot {
+		desc = strings.Replace(desc, "<sandbox>/root,", "<sandbox>/dotted/root.v2,", 1)
+	}
 	if c.Nested > 0 {
 		desc += fmt.Sprintf(" registered, together with a mount of the sibling directory under /other, inside Group(\"/o\", %d middleware){Group(\"/i\", 1 middleware)}", c.Nested)
 	}
@@ -451,7 +471,7 @@ func c17Run(c c17Case, st *fw.Stats) []fw.Viol {
 					add("static:extension", fmt.Sprintf("%s: GET %q answered 200 although the path does not end in an allowed extension", desc, dec))
 				}
 			case "StaticFile":
-				if body != "INSIDE:root/a.txt" {
+				if body != "INSIDE:root/a.txt" && body != "INSIDE:dotted/root.v2/a.txt" {
 					add("static:single-file", fmt.Sprintf("%s: GET %q answered %q, only the configured file may be served", desc, dec, trunc(body)))
 				}
 			}
@@ -508,7 +528,7 @@ func c17Run(c c17Case, st *fw.Stats) []fw.Viol {
 var c17Spec = fw.Spec[c17Case]{
 	ID:    "C17",
 	Level: "model_checking",
-	Rule: "complete enumeration: all request paths of <=3 (thorough 4) tokens over 36 tokens {.., ., empty, sub, a.txt, b.css, SECRET.txt, rootx, %2e%2e, ..%2f, %2f, \\, %5c.., %00, 'a.txt.', '.../', s.css, ..%5c, c.js, e.scss, m.mjs, acss, x.css.bak, dir.js, inner.md, 'a.txt;.css', 'd.md;x.js', 'a.txt%3B.css', ';', names with a long s / in upper case where the extension list says js / css} after each mount prefix, sent with URL.RawPath = the raw string and URL.Path = its decoding, for StaticDir / StaticFS(http.Dir) / StaticFiles(css|js) / StaticFile x prefixes {/d, /deep/d, /root (= the directory's own name)} x both UseEncodedPath settings (and with a global path variable named like the handlers' internal variable; and with the mount and a second mount of the sibling directory inside nested groups with 2+1 / 3+1 / 1+1 middleware, requested alternately; and with a second StaticFiles mount on the SAME prefix serving another root with another extension list, registered before / after), against a real sandbox tree with marked files outside the root (parent directory, name-prefix sibling 'rootx'); plus relative roots in 6 spellings x 4 handlers x 5 arrangements (other mounts whose directory names differ by leading dots / slashes; another router or another mount registered while the process worked in a directory of the same layout; the root created only after the mount was registered; two groups mounting under the same prefix argument with different roots, the other one requested first) probed with all paths of <=2 tokens over 12 tokens; " +
+	Rule: "complete enumeration: all request paths of <=3 (thorough 4) tokens over 36 tokens {.., ., empty, sub, a.txt, b.css, SECRET.txt, rootx, %2e%2e, ..%2f, %2f, \\, %5c.., %00, 'a.txt.', '.../', s.css, ..%5c, c.js, e.scss, m.mjs, acss, x.css.bak, dir.js, inner.md, 'a.txt;.css', 'd.md;x.js', 'a.txt%3B.css', ';', names with a long s / in upper case where the extension list says js / css} after each mount prefix, sent with URL.RawPath = the raw string and URL.Path = its decoding, for StaticDir / StaticFS(http.Dir) / StaticFiles(css|js) / StaticFile x prefixes {/d, /deep/d, /root (= the directory's own name)} x both UseEncodedPath settings (and with a global path variable named like the handlers' internal variable; and with the mount and a second mount of the sibling directory inside nested groups with 2+1 / 3+1 / 1+1 middleware, requested alternately; and with a second StaticFiles mount on the SAME prefix serving another root with another extension list, registered before / after), against a real sandbox tree with marked files outside the root (parent directory, name-prefix sibling 'rootx'; also with a root directory whose own name contains a dot); plus relative roots in 6 spellings x 4 handlers x 5 arrangements (other mounts whose directory names differ by leading dots / slashes; another router or another mount registered while the process worked in a directory of the same layout; the root created only after the mount was registered; two groups mounting under the same prefix argument with different roots, the other one requested first) probed with all paths of <=2 tokens over 12 tokens; " +
 		"oracle: no body carries an outside marker or lists an outside directory, every 200 body is a file under the root, StaticFiles answers 200 only for allowed extensions, StaticFile only its file; non-trivial = a path containing a dot-dot in some encoding",
 	Assume: []string{"relative to the sandbox tree and the OS / file system the check runs on", "net/http's FileServer is part of the implementation under test, not of the oracle"},
 	Bounds: func(tier string) map[string]any {
